@@ -133,16 +133,18 @@ def get_branch_type(opcode: int) -> bool | None:  # noqa: D103
         case (
             "POP_JUMP_IF_TRUE"
             | "POP_JUMP_IF_NOT_NONE"
+            # The none-based jumps are traced as `is None` and `is not None`,
+            # respectively, which both hold if the jump is taken.
+            | "POP_JUMP_IF_NONE"
             | "INSTRUMENTED_POP_JUMP_IF_TRUE"
             | "INSTRUMENTED_POP_JUMP_IF_NOT_NONE"
+            | "INSTRUMENTED_POP_JUMP_IF_NONE"
         ):
             return True
         case (
             "POP_JUMP_IF_FALSE"
-            | "POP_JUMP_IF_NONE"
             | "FOR_ITER"
             | "INSTRUMENTED_POP_JUMP_IF_FALSE"
-            | "INSTRUMENTED_POP_JUMP_IF_NONE"
         ):
             return False
         case _:
